@@ -447,11 +447,38 @@ fn sequences(ctx: &mut Ctx) {
                     }
                 }
             }
-            (wire, emitted, lens, a, left_a, b, pos)
+            // path C: ONE decrypter, each header through a path chosen at random (read-based or two-step)
+            let (mut c3, _) = pair(key);
+            let (_, mut mix_half) = client_halves(key);
+            let mut mpos = 0usize;
+            let mut mix: Vec<(H, usize, bool)> = Vec::new();
+            let mut choice = key[0] as u64 ^ (k as u64) << 8 | 1;
+            for _ in 0..hs.len() {
+                choice = choice.wrapping_mul(6364136223846793005).wrapping_add(1442695040888963407);
+                let by_read = (choice >> 33) & 1 == 1;
+                if by_read {
+                    let mut rd = std::io::Cursor::new(&wire[mpos..]);
+                    let h = if mode % 2 == 1 { c3.read_and_decrypt_server_header(&mut rd) } else { mix_half.read_and_decrypt_server_header(&mut rd) };
+                    match h { Ok(h) => { let n = rd.position() as usize; mix.push(((h.size, h.opcode), n, true)); mpos += n; } Err(_) => break }
+                } else {
+                    if wire.len() - mpos < 4 { break; }
+                    let buf = [wire[mpos], wire[mpos + 1], wire[mpos + 2], wire[mpos + 3]];
+                    let att = if mode % 2 == 1 { c3.attempt_decrypt_server_header(buf) } else { mix_half.attempt_decrypt_server_header(buf) };
+                    match att {
+                        WrathServerAttempt::Header(h) => { mix.push(((h.size, h.opcode), 4, false)); mpos += 4; }
+                        WrathServerAttempt::AdditionalByteRequired => {
+                            if wire.len() - mpos < 5 { break; }
+                            let h = if mode % 2 == 1 { c3.decrypt_large_server_header(wire[mpos + 4]) } else { mix_half.decrypt_large_server_header(wire[mpos + 4]) };
+                            mix.push(((h.size, h.opcode), 5, false)); mpos += 5;
+                        }
+                    }
+                }
+            }
+            (wire, emitted, lens, a, left_a, b, pos, mix)
         });
         let det = |what: &str, idx: usize| format!("{{\"what\":{},\"key\":\"{}\",\"api\":\"{}\",\"first_bad_index\":{},\"headers\":{},\"trailing\":\"{}\"}}",
             jstr(what), hex(&key), ["halves", "facades", "write wrapper (half) + halves", "write wrapper (facade) + facades"][mode], idx, hs_json(&hs), hex(&trailing));
-        let (wire, emitted, lens, a, left_a, b, pos_b) = match r { Some(x) => x, None => { ctx.fail("panic", det("panic while encoding / decoding a header sequence", 0)); continue; } };
+        let (wire, emitted, lens, a, left_a, b, pos_b, mix) = match r { Some(x) => x, None => { ctx.fail("panic", det("panic while encoding / decoding a header sequence", 0)); continue; } };
         // emitted lengths and layout against the independent keystream
         let mut ks = RefRc4::wrath(&S2C, &key);
         let mut p = 0usize;
@@ -478,6 +505,16 @@ fn sequences(ctx: &mut Ctx) {
                 Some((h, n)) if *h == (*s, *o) && *n == plen => {}
                 Some((h, n)) => { ctx.fail("two_step_path", det(&format!("two-step path, header {}: got size {} opcode {} consuming {} bytes", i, h.0, h.1, n), i)); bad = true; }
                 None => { ctx.fail("two_step_path", det(&format!("two-step path stopped before header {}", i), i)); bad = true; }
+            }
+            if bad { break; }
+        }
+        if bad { continue; }
+        for (i, (s, o)) in hs.iter().enumerate() {
+            let plen = if *s <= 0x7FFF { 4 } else { 5 };
+            match mix.get(i) {
+                Some((h, n, _)) if *h == (*s, *o) && *n == plen => {}
+                Some((h, n, by_read)) => { ctx.fail("mixed_paths", det(&format!("one decrypter, decoding paths mixed: header {} through the {} path gave size {} opcode {} consuming {} bytes; paths so far (true = read-based): {:?}", i, if *by_read { "read-based" } else { "two-step" }, h.0, h.1, n, mix.iter().take(i + 1).map(|m| m.2).collect::<Vec<_>>()), i)); bad = true; }
+                None => { ctx.fail("mixed_paths", det(&format!("one decrypter, decoding paths mixed: stopped before header {}", i), i)); bad = true; }
             }
             if bad { break; }
         }
